@@ -41,6 +41,8 @@ type Case struct {
 	// the header / objective line, 2 last line.
 	Comment int `json:"comment,omitempty"`
 	Where   int `json:"where,omitempty"`
+	// Known: "unsat" / "sat" when the verdict of a .cnf file too large for brute force is known by construction
+	Known string `json:"known,omitempty"`
 }
 
 var workDir string
@@ -273,7 +275,14 @@ func check(c Case, o *vf.Obs) error {
 			return k
 		}
 	}
-	best, feasible, _ := oracle.Minimum(n, feasibleOf, costOf)
+	var best int
+	var feasible bool
+	if c.Known != "" {
+		feasible = c.Known == "sat"
+		o.Class("verdict-known-by-construction")
+	} else {
+		best, feasible, _ = oracle.Minimum(n, feasibleOf, costOf)
+	}
 	o.ClassIf(!feasible, "unsat")
 	ss := get("s ")
 	if len(ss) != 1 {
@@ -536,7 +545,25 @@ func genCase(t *rapid.T) Case {
 	c.Kind = kind
 	switch kind {
 	case "cnf":
-		switch rapid.IntRange(0, 5).Draw(t, "family") {
+		switch rapid.IntRange(0, 6).Draw(t, "family") {
+		case 6:
+			// pigeonhole with 5..6 holes (30..42 variables) among padding clauses that hold a fresh positive literal:
+			// unsatisfiable by construction, hundreds to thousands of conflicts (restarts, reductions, a certificate of
+			// hundreds of lines); with one pigeon dropped: satisfiable
+			holes := rapid.IntRange(5, 6).Draw(t, "holes")
+			drop := gen.Chance(t, 1, 4, "dropPigeon")
+			c.N, c.Clauses = gen.Pigeonhole(t, holes, drop)
+			c.Known = "unsat"
+			if drop {
+				c.Known = "sat"
+			}
+			for i, k := 0, rapid.IntRange(0, 5).Draw(t, "padding"); i < k; i++ {
+				c.N++
+				c.Clauses = append(c.Clauses, append([]int{c.N}, gen.DistinctLits(t, c.N-1, rapid.IntRange(0, 2).Draw(t, "plen"), "p")...))
+			}
+			c.Clauses = rapid.Permutation(c.Clauses).Draw(t, "phpOrder")
+			c.Flags = append([]string{}, rapid.SampledFrom([][]string{{}, {"-certified"}, {"-certified"}, {"-certified", "-verbose"}, {"-cp"}, {"-verbose"}}).Draw(t, "phpFlags")...)
+			return c
 		case 3, 4, 5: // binary-clause cliques: what -cp rewrites into cardinality constraints before solving
 			c.N = gen.Uniform(t, 3, 10, "n")
 			c.Clauses, _ = gen.CliqueRich(t, c.N)
@@ -676,8 +703,8 @@ func TestMain(m *testing.M) {
 
 func init() {
 	vf.Register(vf.Sub[Case]{Name: "cli", Quick: 700, Thorough: 6000, Gen: genCase, Check: check, Floor: 0.5,
-		Classes: map[string]float64{"kind-cnf": 0.05, "kind-opb": 0.05, "kind-wcnf": 0.05, "kind-bf": 0.05, "flag-count": 0.05, "flag-certified": 0.03, "flag-mus": 0.03, "flag-cp": 0.05, "flag-verbose": 0.05},
-		Rule:    "the executable is built from the tree and run on generated .cnf (odd clause shapes, 3-SAT, pigeonhole, clique-rich formulas mostly run with -cp), .opb (with/without objective of either sign; knapsack equalities over 15..18 variables mostly run with -cp), .wcnf and .bf files (conventional layout, n<=10; one in eight .cnf/.opb/.wcnf files holds a comment line of 100 to 70 000 bytes made of words and numbers, as first, second or last line) x flag sets {none, -verbose, -cp, -count, -verbose -count, -cp -verbose, -certified, -certified -verbose, -mus} (-certified is not combined with -cp: a RUP certificate cannot express the PB constraints that strategy learns, and the property lists the flags separately), plus unreadable paths, an unknown suffix and syntactically broken files; stdout is parsed: exactly one status line, the v line is a total model of the file, 's UNSATISFIABLE' only for unsatisfiable files, o lines strictly decreasing and ending in the brute-force optimum attained by the printed model, -count prints exactly the model count, the -certified lines replay as a RUP refutation, the -mus DIMACS block is a minimal unsatisfiable sub-multiset of the file; -verbose only adds comment lines; bad files: exit status != 0 and no answer line; non-trivial = file with >=2 constraints (or formula of size >=4, count >=2, an extracted MUS, a bad file)"})
+		Classes: map[string]float64{"kind-cnf": 0.05, "kind-opb": 0.05, "kind-wcnf": 0.05, "kind-bf": 0.05, "flag-count": 0.05, "flag-certified": 0.03, "flag-mus": 0.015, "flag-cp": 0.05, "flag-verbose": 0.05},
+		Rule:    "the executable is built from the tree and run on generated .cnf (odd clause shapes, 3-SAT, pigeonhole, clique-rich formulas mostly run with -cp, pigeonhole with 5..6 holes plus padding - verdict known by construction, certificate of hundreds of lines replayed), .opb (with/without objective of either sign; knapsack equalities over 15..18 variables mostly run with -cp), .wcnf and .bf files (conventional layout, n<=10; one in eight .cnf/.opb/.wcnf files holds a comment line of 100 to 70 000 bytes made of words and numbers, as first, second or last line) x flag sets {none, -verbose, -cp, -count, -verbose -count, -cp -verbose, -certified, -certified -verbose, -mus} (-certified is not combined with -cp: a RUP certificate cannot express the PB constraints that strategy learns, and the property lists the flags separately), plus unreadable paths, an unknown suffix and syntactically broken files; stdout is parsed: exactly one status line, the v line is a total model of the file, 's UNSATISFIABLE' only for unsatisfiable files, o lines strictly decreasing and ending in the brute-force optimum attained by the printed model, -count prints exactly the model count, the -certified lines replay as a RUP refutation, the -mus DIMACS block is a minimal unsatisfiable sub-multiset of the file; -verbose only adds comment lines; bad files: exit status != 0 and no answer line; non-trivial = file with >=2 constraints (or formula of size >=4, count >=2, an extracted MUS, a bad file)"})
 }
 
 func TestCorpus(t *testing.T) { vf.Corpus(t) }
